@@ -984,6 +984,75 @@ def r13_conversions_only_in_front_of_typed_places(ctx, rule="C02.R13"):
     ctx.require(rule, 4)
 
 
+def _copied_operator(prog, f, op, callers, depth=0, seen=None):
+    """None when the operand is, on every definition, the operator of a node the function received (a field of a
+    parameter / of something read out of one), followed through bare parameters to the callers; else a reason"""
+    from .c04 import _all_origins
+    seen = seen if seen is not None else set()
+    for o in _all_origins(f.body, op):
+        so = mir.strip_all(o)
+        while so[0] in ("ref", "deref", "clone", "cast"):
+            so = mir.strip_all(so[1])
+        if so[0] in ("field", "downcast", "index"):
+            root = so
+            while root[0] in ("field", "downcast", "index", "ref", "deref", "clone"):
+                root = root[1]
+            if root[0] in ("param", "local", "call"):
+                continue            # read out of a node that exists
+            return "%s made from %s" % (f.name, mir.short_origin(o)[:80])
+        if so[0] == "param":
+            if depth >= 4 or (f.id, so[1]) in seen:
+                continue
+            seen.add((f.id, so[1]))
+            enc = f
+            if f.kind == "closure":
+                continue            # the argument of a closure: the element of the list it is mapped over
+            for cid in sorted(callers.get(enc.id, ())):
+                g = prog.fns.get(cid)
+                if g is None or g.body is None or g.crate not in ("rusty_linter", "rusty_basic"):
+                    continue
+                for b, t in g.body.calls():
+                    if mir.callee_of(t) == f.id and so[1] < len(t["args"]):
+                        r = _copied_operator(prog, g, t["args"][so[1]], callers, depth + 1, seen)
+                        if r:
+                            return r
+            continue
+        return "%s: %s" % (f.name, mir.short_origin(o)[:100])
+    return None
+
+
+def r14_operators_are_copied(ctx, rule="C02.R14"):
+    """`loops test their condition where and with the sense the statement specifies`: a condition is tested with
+    the operator the programmer wrote.  After the parser, nothing chooses an operator: wherever the checker or
+    the generator builds a BinaryExpression / UnaryExpression node (conversion, casting, reduction of undefined
+    functions), the operator of the new node is the operator of the node it is built from - a field of a value
+    the function received, followed through plain parameters to the callers.  A node whose operator comes out
+    of a table or a constant (`DO UNTIL a < b` rewritten to `DO WHILE a > b`) is reported."""
+    prog = ctx.prog
+    callers = prog.callers()
+    n = 0
+    for f in sorted(prog.fns.values(), key=lambda f: f.id):
+        if f.crate not in ("rusty_linter", "rusty_basic") or f.body is None:
+            continue
+        if re.search(r" as std::clone::Clone>::clone$", f.path):
+            continue
+        for b, blk in enumerate(f.body.blocks):
+            if f.body.is_cleanup(b):
+                continue
+            for s in blk["s"]:
+                r = s.get("r") if s["k"] == "assign" else None
+                if not r or r["k"] != "agg" or r.get("a") != "adt" or not r["adt"].endswith("::Expression") \
+                        or r.get("variant") not in ("BinaryExpression", "UnaryExpression"):
+                    continue
+                n += 1
+                why = _copied_operator(prog, f, r["ops"][0], callers)
+                ctx.decide(why is None, rule, "%s:%s:%s" % (rule, f.name if f.kind != "closure" else prog.enclosing_fn(f).name + "{closure}", r["variant"]), f.loc,
+                           "the operator of the %s built here is the operator of the node it is built from" % r["variant"],
+                           "%s builds a %s whose operator is not the operator of the node it was built from (%s): the "
+                           "condition is tested with an operator the programmer did not write" % (f.name, r["variant"], why))
+    ctx.require(rule, 3)
+
+
 def run(ctx):
     common.install(ctx)
     T = templates.Templates(ctx.prog)
@@ -1000,3 +1069,4 @@ def run(ctx):
     r10_for_step_as_evaluated(ctx, T)
     r11_tested_value_is_not_a_bitwise_complement(ctx)
     r13_conversions_only_in_front_of_typed_places(ctx)
+    r14_operators_are_copied(ctx)
